@@ -339,6 +339,20 @@ func genSearchCase(t *rapid.T, configs []searchConfig) searchCase {
 		}
 		if n > 14 {
 			gc, g = gen.Play(t, gen.Start(t), 90, gen.Policy{8, 2, 4, 4, 2, 1, 8, 0, 1, 1})
+			n = 0
+			for _, pc := range g.Cur().Pos.Sq {
+				if pc != 0 {
+					n++
+				}
+			}
+			if n > 14 { // still busy: use the same evaluator without the capture search
+				for _, c := range configs {
+					if c.Name == "synth" || c.Name == "material" {
+						cfg = c
+						break
+					}
+				}
+			}
 		}
 	}
 	c := searchCase{FEN: gc.FEN, Moves: gc.Moves, Config: cfg.Name, Param: rapid.IntRange(1, 9).Draw(t, "param")}
@@ -353,7 +367,7 @@ func genSearchCase(t *rapid.T, configs []searchConfig) searchCase {
 }
 
 func TestC03_minimax(t *testing.T) {
-	runRapid(t, "C03/minimax", 12000, func(t *rapid.T) searchCase {
+	runRapid(t, "C03/minimax", 30000, func(t *rapid.T) searchCase {
 		return genSearchCase(t, searchConfigs)
 	}, func(c searchCase) error {
 		stats.Sample("C03/minimax", c)
